@@ -21,9 +21,10 @@ from typing import Any, Dict, List, Optional
 
 VERIF = os.path.dirname(os.path.dirname(os.path.abspath(__file__)))
 sys.path.insert(0, VERIF)
-if '/repo' in sys.path:
-  sys.path.remove('/repo')
-sys.path.insert(0, '/repo')
+REPO = os.environ.get('VERIF_REPO', '/repo')     # seeded-change runs point this at a scratch worktree
+if REPO in sys.path:
+  sys.path.remove(REPO)
+sys.path.insert(0, REPO)
 
 HARNESS = {
     'C01': 'harness.c01_tree', 'C02': 'harness.c02_listdict', 'C03': 'harness.c03_schema',
@@ -272,7 +273,7 @@ def main(argv=None) -> int:
   # 4. replay files + VIOLATION lines (one per distinct signature).
   exit_code = EXIT_OK
   seen_sigs = set()
-  rdir = os.path.join(VERIF, 'replays', prop)
+  rdir = os.path.join(os.environ.get('VERIF_OUT', VERIF), 'replays', prop)
   if os.path.isdir(rdir) and not a.only:
     import shutil
     shutil.rmtree(rdir, ignore_errors=True)
